@@ -70,7 +70,7 @@ def check_split(rep, prog):
     size = 200
     buf = bytes(size)
     for cfg in ([], [0], [7], [199], [0, 50], [7, 50, 120], [0, 1, 2, 3, 4, 5], [10, 20, 30, 40, 50, 196]):
-        env = {S: cfg, DATA: buf, Op("len", DATA): size, Op("len", S): len(cfg), Op("truthy", S): bool(cfg), Op("truthy", DATA): True}
+        env = pelx.with_heap(I, {S: cfg, DATA: buf, Op("len", DATA): size, Op("len", S): len(cfg), Op("truthy", S): bool(cfg), Op("truthy", DATA): True})
         try:
             lo, hi = evaluate(ilog_slice.args[1], env), evaluate(ilog_slice.args[2], env)
         except CannotEval as e:
